@@ -215,8 +215,9 @@ def handoff(ck, proc):
             ds = gc.site_of(dec[0])
             ok = gc.postdominated(rs_, {ds}) and gc.dominated(ds, {rs_}) and not gc.in_cycle(ds)
             ck.ob("C03-O5", sitestr(ce, dec[0]), ok, "%s: pending -= 1 exactly once after each handler run" % tag if ok else "%s: the decrement does not follow every handler run exactly once" % tag, key="Worker::customEvent|decrement")
-    from rules.oth import worker_runs_unlocked
+    from rules.oth import worker_runs_unlocked, worker_cleared_after_stop
     worker_runs_unlocked(ck, cls, tag, "C03-O3")
+    worker_cleared_after_stop(ck, cls, tag, "C03-O4")
     # single event type, no sendEvent
     for f in F.fns.values():
         if f.cls and f.cls.startswith(cls):
